@@ -10,6 +10,8 @@ import (
 	"encoding/xml"
 	"fmt"
 	"io"
+	"net/http"
+	"net/http/httptest"
 	"os"
 	"strings"
 	"sync"
@@ -17,7 +19,77 @@ import (
 	"time"
 
 	"gosrc.io/xmpp/stanza"
+	"nhooyr.io/websocket"
 )
+
+// c05wsFragments: the real websocket transport against a real websocket server that sends each stanza as ONE message
+// cut into the given number of frames; every stanza must come out of NextPacket, in order.
+func c05wsFragments(frames int) string {
+	stanzas := []string{
+		`<message xmlns="jabber:client" id="w1"><body>` + strings.Repeat("x", 40) + `</body></message>`,
+		`<presence xmlns="jabber:client" id="w2"><status>s</status></presence>`,
+		`<message xmlns="jabber:client" id="w3"><body>last</body></message>`,
+	}
+	srv := httptest.NewServer(http.HandlerFunc(func(w http.ResponseWriter, r *http.Request) {
+		c, err := websocket.Accept(w, r, &websocket.AcceptOptions{Subprotocols: []string{"xmpp"}})
+		if err != nil {
+			return
+		}
+		ctx := context.Background()
+		c.Read(ctx) // the client's <open/>
+		c.Write(ctx, websocket.MessageText, []byte(`<open xmlns="urn:ietf:params:xml:ns:xmpp-framing" id="s1" version="1.0"/>`))
+		for _, st := range stanzas {
+			wr, err := c.Writer(ctx, websocket.MessageText)
+			if err != nil {
+				return
+			}
+			step := (len(st) + frames - 1) / frames
+			for i := 0; i < len(st); i += step {
+				j := i + step
+				if j > len(st) {
+					j = len(st)
+				}
+				wr.Write([]byte(st[i:j])) // one frame per Write
+			}
+			wr.Close()
+		}
+		time.Sleep(3 * time.Second)
+		c.Close(websocket.StatusNormalClosure, "")
+	}))
+	defer srv.Close()
+	tr := &WebsocketTransport{Config: TransportConfiguration{Address: "ws" + strings.TrimPrefix(srv.URL, "http"), Domain: "localhost", ConnectTimeout: 5}}
+	if _, err := tr.Connect(); err != nil {
+		return "websocket connect: " + err.Error()
+	}
+	defer tr.Close()
+	got := make(chan string, 8)
+	go func() {
+		for {
+			p, err := stanza.NextPacket(tr.GetDecoder())
+			if err != nil {
+				got <- "error: " + err.Error()
+				return
+			}
+			switch x := p.(type) {
+			case stanza.Message:
+				got <- x.Id
+			case stanza.Presence:
+				got <- x.Id
+			}
+		}
+	}()
+	for _, want := range []string{"w1", "w2", "w3"} {
+		select {
+		case g := <-got:
+			if g != want {
+				return fmt.Sprintf("websocket messages in %d frame(s): got %q, want stanza %s", frames, g, want)
+			}
+		case <-time.After(2500 * time.Millisecond):
+			return fmt.Sprintf("websocket messages in %d frame(s): stanza %s never reaches the decoder (the reader goroutine stopped)", frames, want)
+		}
+	}
+	return ""
+}
 
 type c05transport struct {
 	d  *xml.Decoder
@@ -211,6 +283,12 @@ func TestVerifReplay_C05(t *testing.T) {
 				report("WebsocketTransport.Read: %d-byte frame through %d-byte reads delivered %q, want %q", frame, buf, out, string(data)+"|")
 			}
 			cancel()
+		}
+	}
+	for _, frames := range []int{1, 2, 5} {
+		cases++
+		if m := c05wsFragments(frames); m != "" {
+			report("%s", m)
 		}
 	}
 	fmt.Printf("REPLAY-CASES: %d\n", cases)
